@@ -234,6 +234,7 @@ func TestForeignHellos(t *testing.T) {
 	w := newNDWriter(t, out)
 	defer w.Close()
 	oracle2, skipped := 0, 0
+	var prevRecord []byte
 	for i := 0; i < n; i++ {
 		fh := genForeign(r, i)
 		ksn := ksNames[r.Intn(3)]
@@ -264,6 +265,13 @@ func TestForeignHellos(t *testing.T) {
 			if c.ECHAccepted() {
 				diff = "accepted a hello that carries no authentic ECH"
 				return
+			}
+			// another connection is accepted before this one is read (connections share nothing)
+			if prevRecord != nil {
+				if c2, err2 := ech.NewConn(t.Context(), newScriptConn(prevRecord), keyOptions(keySets[ksn])...); err2 == nil {
+					one := make([]byte, 1)
+					c2.Read(one)
+				}
 			}
 			// every read-buffer size class
 			var got []byte
@@ -302,6 +310,7 @@ func TestForeignHellos(t *testing.T) {
 				}
 			}
 		}()
+		prevRecord = fh.record
 		w.Write(Ev{"key": fmt.Sprintf("%d/%s/%s", i, fh.shape, ksn), "shape": fh.shape + "/" + ksn, "diff": diff, "len": len(fh.record), "hello": fmt.Sprintf("%x", fh.record[:min(len(fh.record), 300)])})
 	}
 	w.Write(Ev{"summary": true, "n": n, "checked_against_crypto_tls": oracle2, "crypto_tls_declined": skipped})
